@@ -2399,6 +2399,33 @@ theorem parse_gr (input : Bytes) (T : List Tok) (b : Bool) (h : parse input = .o
   obtain ⟨rfl, _⟩ := h
   exact run_g _ _ _ _ _ _ StInv.init GInv.init hr
 
+/-- what the invariant says about Key / KeyValueSeparator / ObjectValue states: `mixed_mode` is off,
+and in Key state the innermost open container (if any) is an `Object` token.  Hence three arms of
+tape.rs are dead code: `[b'=', ..] if mixed_mode` in KeyValueSeparator (tape.rs:694) and the
+`Some(TextToken::Array { .. })` / `_ => 0` arms of the two `match self.token_tape.get(parent_ind)`
+that run in Key state (end of input: tape.rs:538 / 540; `}`: tape.rs:562; the `_` arm is only
+taken with `parent_ind == 0`, which the end-of-input path has excluded before). -/
+theorem ginv_key_facts {st : St} (hG : GInv st) :
+    (st.state = .key ∨ st.state = .kvs ∨ st.state = .objectValue → st.mixed = false) ∧
+    (st.state = .key → st.parent ≠ 0 → ∃ e m, st.tape[st.parent]? = some (.object e m)) := by
+  obtain ⟨T0, body, o, hL, htape, hB, _, _, hSt⟩ := hG
+  refine ⟨hSt, ?_⟩
+  intro hs hp
+  rw [hs] at hB htape
+  have ho : o = true := by
+    rcases hB with ⟨h, _⟩ | ⟨h, _⟩ <;> exact h
+  rcases hL.kind with ⟨_, h0, _⟩ | ⟨c, hc, hcs, hco, hlen, _⟩
+  · exact absurd h0 hp
+  · simp only [holeOf, reduceCtorEq, if_false, List.append_nil] at htape
+    have hget : st.tape[st.parent]? = some c := by
+      rw [htape, List.getElem?_append_left (by omega)]
+      rw [List.getLast?_eq_getElem?] at hc
+      have : T0.length - 1 = st.parent := by omega
+      rw [this] at hc; exact hc
+    rw [ho] at hco
+    cases c <;> simp [Tok.isObj] at hco
+    exact ⟨_, _, hget⟩
+
 /-- **C17 hypothesis for ALL inputs**: every tape the text parser model accepts satisfies the
 structural hypothesis `Dom.wfTape` of the DOM / JSON / writer theorems: links both ways, nothing
 at index 0, a header is followed by a container, stack-pass nesting, and every object body — the
